@@ -459,6 +459,13 @@ def run(spec, tid, *extra):
             r = ["slept", tid]
         elif k == "raise":
             raise EXC[spec["e"]](*spec.get("args", ()))
+        elif k == "raise_unpicklable":
+            # an exception INSTANCE that cannot be pickled (carries an OS-level handle), the way application errors often do
+            err = EXC[spec["e"]](*spec.get("args", ()))
+            import _thread
+
+            err.handle = _thread.allocate_lock() if spec.get("attr", "lock") == "lock" else (lambda: tid)
+            raise err
         elif k == "bad_result_pickle":
             r = ["brp", tid, BadPickle(spec.get("e", "ZeroDivisionError"))]
         elif k == "bad_result_unpickle":
@@ -545,6 +552,8 @@ def expected(spec, tid):
         return ("value", ["slept", tid])
     if k == "raise":
         return ("exc", spec["e"], list(spec.get("args", ())))
+    if k == "raise_unpicklable":
+        return ("exc_any",)
     if k == "bad_result_pickle":
         return ("exc", spec.get("e", "ZeroDivisionError"), ["bad pickle"])
     if k == "bad_result_unpickle":
